@@ -1,9 +1,1453 @@
-//! C17 — (stub; not built yet)
+//! C17 — the C API computes what the Rust API computes and contains panics.
+//!
+//! Differential run through the REAL C library: `/repo/ffi` is built with cargo
+//! (current working tree, dev profile: overflow checks and debug assertions on)
+//! and `harness/capi/driver.c` is compiled with clang against
+//! `/repo/ffi/include/coupe.h` and linked with it (a header declaration without
+//! an exported symbol of that exact name is a link error → sig `capi-build`).
+//! Every op goes (1) through the Rust API in-process — the reference — and
+//! (2) through the C driver running as a child process.
+//!
+//! ops (tokens; `<data>` = `<arr|const|fn> <int|i64|f64> <arity> <len> <k> <v…>`, f64 as hex bits):
+//!   rcb|rib <dimension> <iter_count> <tolerance bits> P <data> W <data> I <n> <p…>
+//!   hilbert <part_count> <order> P <data> W <data> I <n> <p…>
+//!   greedy|kk <part_count> W <data> I <n> <p…>
+//!   ckk <tolerance bits> W <data> I <n> <p…>
+//!   fm <max_passes> <max_moves> <max_imbalance bits> <max_bad> A <checked|unchecked> <int|i64|f64>
+//!      <size> <nx> <xadj…> <na> <adjncy…> <nd> <data…> W <data> I <n> <p…>
+//!   strerror <code>
+//! The recorded op carries the reference outcome of the Rust API after a token `R`
+//! (`ok <n> <ids>` | `okties` | `err <Variant> <n> <ids>` | `herr InvalidOrder <n> <ids>` |
+//! `panic` | `na` = no Rust-level counterpart, the C prologue must reject | `nulladj`), which is
+//! the algorithm-outcome parameter of the Lean model of the FFI layer.  On input, everything
+//! from `R` on is dropped and recomputed.
+//!
+//! out = the C driver's line: `<CODE>(<n>) | <ids>`, `CRASH(2)`, `NULL_ADJNCY`, `strerror <n> <msg>`;
+//! for FiducciaMattheyses inputs on which hash-set order can matter (ties) `OK(0) ~ties`.
 
 use crate::common::*;
+use coupe::nalgebra::SVector;
+use coupe::rayon::prelude::*;
+use coupe::Partition as _;
+use std::io::{BufRead, BufReader, Write};
+use std::process::{Child, ChildStdin, Command, Stdio};
+use std::sync::mpsc::{channel, Receiver};
+use std::sync::{Mutex, OnceLock};
+use std::time::Duration;
 
-pub fn generate(_ctx: &mut Ctx) {}
+// ------------------------------------------------------------------ op model
 
-pub fn run_op(ctx: &mut Ctx, op: &str) {
-    ctx.record(op.to_string(), "bad-op".into(), false);
+#[derive(Clone, Copy, PartialEq, Eq, Debug)]
+enum Repr {
+    Arr,
+    Const,
+    Fn,
+}
+const REPRS: [Repr; 3] = [Repr::Arr, Repr::Const, Repr::Fn];
+
+#[derive(Clone, Copy, PartialEq, Eq, Debug)]
+enum Ty {
+    Int,
+    I64,
+    F64,
+}
+const TYS: [Ty; 3] = [Ty::Int, Ty::I64, Ty::F64];
+
+impl Repr {
+    fn s(self) -> &'static str {
+        match self {
+            Repr::Arr => "arr",
+            Repr::Const => "const",
+            Repr::Fn => "fn",
+        }
+    }
+}
+impl Ty {
+    fn s(self) -> &'static str {
+        match self {
+            Ty::Int => "int",
+            Ty::I64 => "i64",
+            Ty::F64 => "f64",
+        }
+    }
+    fn parse(s: &str) -> Option<Ty> {
+        Some(match s {
+            "int" => Ty::Int,
+            "i64" => Ty::I64,
+            "f64" => Ty::F64,
+            _ => return None,
+        })
+    }
+}
+
+/// Values of a data set as written in the op: integers, or f64 bit patterns.
+#[derive(Clone, Debug)]
+struct DataSet {
+    repr: Repr,
+    ty: Ty,
+    arity: usize,
+    len: usize,
+    /// `k` raw values: i64 for int/i64, bit patterns for f64
+    ints: Vec<i64>,
+    bits: Vec<u64>,
+}
+
+impl DataSet {
+    fn fmt(&self) -> String {
+        let k = if self.ty == Ty::F64 { self.bits.len() } else { self.ints.len() };
+        let mut s = format!("{} {} {} {} {}", self.repr.s(), self.ty.s(), self.arity, self.len, k);
+        if self.ty == Ty::F64 {
+            for b in &self.bits {
+                s.push_str(&format!(" {:x}", b));
+            }
+        } else {
+            for v in &self.ints {
+                s.push_str(&format!(" {}", v));
+            }
+        }
+        s
+    }
+
+    fn parse<'a>(it: &mut impl Iterator<Item = &'a str>) -> Option<DataSet> {
+        let repr = match it.next()? {
+            "arr" => Repr::Arr,
+            "const" => Repr::Const,
+            "fn" => Repr::Fn,
+            _ => return None,
+        };
+        let ty = Ty::parse(it.next()?)?;
+        let arity: usize = it.next()?.parse().ok()?;
+        let len: usize = it.next()?.parse().ok()?;
+        let k: usize = it.next()?.parse().ok()?;
+        if arity == 0 || arity > 8 || len > 1_000_000 {
+            return None;
+        }
+        let want = if repr == Repr::Const { arity } else { len * arity };
+        if k != want {
+            return None;
+        }
+        let mut ints = vec![];
+        let mut bits = vec![];
+        for _ in 0..k {
+            let t = it.next()?;
+            match ty {
+                Ty::F64 => bits.push(u64::from_str_radix(t, 16).ok()?),
+                Ty::I64 => ints.push(t.parse::<i64>().ok()?),
+                Ty::Int => {
+                    let v = t.parse::<i64>().ok()?;
+                    if v < i32::MIN as i64 || v > i32::MAX as i64 {
+                        return None;
+                    }
+                    ints.push(v)
+                }
+            }
+        }
+        Some(DataSet { repr, ty, arity, len, ints, bits })
+    }
+
+    /// The logical sequence the data set denotes (flattened: `len * arity` scalars).
+    /// This is the harness's own reading of the three representations.
+    fn logical_f64(&self) -> Vec<f64> {
+        let raw: Vec<f64> = if self.ty == Ty::F64 {
+            self.bits.iter().map(|&b| f64::from_bits(b)).collect()
+        } else {
+            self.ints.iter().map(|&v| v as f64).collect()
+        };
+        self.expand(raw)
+    }
+    fn logical_i64(&self) -> Vec<i64> {
+        self.expand(self.ints.clone())
+    }
+    fn expand<T: Clone>(&self, raw: Vec<T>) -> Vec<T> {
+        match self.repr {
+            Repr::Arr | Repr::Fn => raw,
+            Repr::Const => {
+                let mut v = Vec::with_capacity(self.len * self.arity);
+                for _ in 0..self.len {
+                    v.extend(raw.iter().cloned());
+                }
+                v
+            }
+        }
+    }
+}
+
+#[derive(Clone, Debug)]
+struct Adj {
+    checked: bool,
+    ty: Ty,
+    size: usize,
+    xadj: Vec<usize>,
+    adjncy: Vec<usize>,
+    ints: Vec<i64>,
+    bits: Vec<u64>,
+}
+
+#[derive(Clone, Debug)]
+enum Op {
+    Geo { name: &'static str, dim: usize, iter: usize, tol: f64, pts: DataSet, ws: DataSet, init: Vec<usize> },
+    Hilbert { parts: usize, order: u32, pts: DataSet, ws: DataSet, init: Vec<usize> },
+    Num { name: &'static str, parts: usize, tol: f64, ws: DataSet, init: Vec<usize> },
+    Fm { max_passes: usize, max_moves: usize, imb: f64, max_bad: usize, adj: Adj, ws: DataSet, init: Vec<usize> },
+    Strerror(u64),
+}
+
+fn fmt_init(p: &[usize]) -> String {
+    if p.is_empty() {
+        "I 0".to_string()
+    } else {
+        format!("I {} {}", p.len(), join(p))
+    }
+}
+
+fn format_op(op: &Op) -> String {
+    match op {
+        Op::Geo { name, dim, iter, tol, pts, ws, init } => format!(
+            "{} {} {} {:x} P {} W {} {}",
+            name, dim, iter, tol.to_bits(), pts.fmt(), ws.fmt(), fmt_init(init)
+        ),
+        Op::Hilbert { parts, order, pts, ws, init } => {
+            format!("hilbert {} {} P {} W {} {}", parts, order, pts.fmt(), ws.fmt(), fmt_init(init))
+        }
+        Op::Num { name, parts, tol, ws, init } => {
+            if *name == "ckk" {
+                format!("ckk {:x} W {} {}", tol.to_bits(), ws.fmt(), fmt_init(init))
+            } else {
+                format!("{} {} W {} {}", name, parts, ws.fmt(), fmt_init(init))
+            }
+        }
+        Op::Fm { max_passes, max_moves, imb, max_bad, adj, ws, init } => {
+            let mut s = format!(
+                "fm {} {} {:x} {} A {} {} {} {}",
+                max_passes,
+                max_moves,
+                imb.to_bits(),
+                max_bad,
+                if adj.checked { "checked" } else { "unchecked" },
+                adj.ty.s(),
+                adj.size,
+                adj.xadj.len()
+            );
+            for x in &adj.xadj {
+                s.push_str(&format!(" {}", x));
+            }
+            s.push_str(&format!(" {}", adj.adjncy.len()));
+            for x in &adj.adjncy {
+                s.push_str(&format!(" {}", x));
+            }
+            if adj.ty == Ty::F64 {
+                s.push_str(&format!(" {}", adj.bits.len()));
+                for x in &adj.bits {
+                    s.push_str(&format!(" {:x}", x));
+                }
+            } else {
+                s.push_str(&format!(" {}", adj.ints.len()));
+                for x in &adj.ints {
+                    s.push_str(&format!(" {}", x));
+                }
+            }
+            s.push_str(&format!(" W {} {}", ws.fmt(), fmt_init(init)));
+            s
+        }
+        Op::Strerror(c) => format!("strerror {}", c),
+    }
+}
+
+fn parse_init<'a>(it: &mut impl Iterator<Item = &'a str>) -> Option<Vec<usize>> {
+    if it.next()? != "I" {
+        return None;
+    }
+    let n: usize = it.next()?.parse().ok()?;
+    if n > 1_000_000 {
+        return None;
+    }
+    let mut p = Vec::with_capacity(n);
+    for _ in 0..n {
+        p.push(it.next()?.parse::<usize>().ok()?);
+    }
+    Some(p)
+}
+
+fn f64_hex(s: &str) -> Option<f64> {
+    Some(f64::from_bits(u64::from_str_radix(s, 16).ok()?))
+}
+
+/// Parses and validates (everything the C driver needs for a memory-safe call).
+fn parse_op(line: &str) -> Option<Op> {
+    let toks: Vec<&str> = line.split_whitespace().take_while(|t| *t != "R").collect();
+    let mut it = toks.into_iter();
+    let name = it.next()?;
+    let op = match name {
+        "rcb" | "rib" => {
+            let dim: usize = it.next()?.parse().ok()?;
+            let iter: usize = it.next()?.parse().ok()?;
+            let tol = f64_hex(it.next()?)?;
+            if it.next()? != "P" {
+                return None;
+            }
+            let pts = DataSet::parse(&mut it)?;
+            if it.next()? != "W" {
+                return None;
+            }
+            let ws = DataSet::parse(&mut it)?;
+            let init = parse_init(&mut it)?;
+            if pts.ty != Ty::F64 || ws.arity != 1 || init.len() != pts.len {
+                return None;
+            }
+            if (dim == 2 || dim == 3) && pts.arity != dim {
+                return None;
+            }
+            Op::Geo { name: if name == "rcb" { "rcb" } else { "rib" }, dim, iter, tol, pts, ws, init }
+        }
+        "hilbert" => {
+            let parts: usize = it.next()?.parse().ok()?;
+            let order: u32 = it.next()?.parse().ok()?;
+            if it.next()? != "P" {
+                return None;
+            }
+            let pts = DataSet::parse(&mut it)?;
+            if it.next()? != "W" {
+                return None;
+            }
+            let ws = DataSet::parse(&mut it)?;
+            let init = parse_init(&mut it)?;
+            if pts.ty != Ty::F64 || pts.arity != 2 || ws.arity != 1 || init.len() != pts.len {
+                return None;
+            }
+            Op::Hilbert { parts, order, pts, ws, init }
+        }
+        "greedy" | "kk" | "ckk" => {
+            let (parts, tol) = if name == "ckk" {
+                (0, f64_hex(it.next()?)?)
+            } else {
+                (it.next()?.parse().ok()?, 0.0)
+            };
+            if it.next()? != "W" {
+                return None;
+            }
+            let ws = DataSet::parse(&mut it)?;
+            let init = parse_init(&mut it)?;
+            if ws.arity != 1 || init.len() != ws.len {
+                return None;
+            }
+            let name = match name {
+                "greedy" => "greedy",
+                "kk" => "kk",
+                _ => "ckk",
+            };
+            Op::Num { name, parts, tol, ws, init }
+        }
+        "fm" => {
+            let max_passes: usize = it.next()?.parse().ok()?;
+            let max_moves: usize = it.next()?.parse().ok()?;
+            let imb = f64_hex(it.next()?)?;
+            let max_bad: usize = it.next()?.parse().ok()?;
+            if it.next()? != "A" {
+                return None;
+            }
+            let checked = match it.next()? {
+                "checked" => true,
+                "unchecked" => false,
+                _ => return None,
+            };
+            let ty = Ty::parse(it.next()?)?;
+            let size: usize = it.next()?.parse().ok()?;
+            let nx: usize = it.next()?.parse().ok()?;
+            if size > 100_000 || nx != size + 1 {
+                return None;
+            }
+            let mut xadj = Vec::with_capacity(nx);
+            for _ in 0..nx {
+                xadj.push(it.next()?.parse::<usize>().ok()?);
+            }
+            let na: usize = it.next()?.parse().ok()?;
+            if na > 4_000_000 || xadj[size] != na {
+                return None;
+            }
+            let mut adjncy = Vec::with_capacity(na);
+            for _ in 0..na {
+                adjncy.push(it.next()?.parse::<usize>().ok()?);
+            }
+            let nd: usize = it.next()?.parse().ok()?;
+            if nd != na {
+                return None;
+            }
+            let mut ints = vec![];
+            let mut bits = vec![];
+            for _ in 0..nd {
+                let t = it.next()?;
+                match ty {
+                    Ty::F64 => bits.push(u64::from_str_radix(t, 16).ok()?),
+                    Ty::I64 => ints.push(t.parse::<i64>().ok()?),
+                    Ty::Int => {
+                        let v = t.parse::<i64>().ok()?;
+                        if v < i32::MIN as i64 || v > i32::MAX as i64 {
+                            return None;
+                        }
+                        ints.push(v)
+                    }
+                }
+            }
+            if !checked {
+                // the unchecked constructor only ever sees structurally valid matrices
+                if xadj[0] != 0 || xadj.windows(2).any(|w| w[0] > w[1]) || adjncy.iter().any(|&j| j >= size) {
+                    return None;
+                }
+                for r in 0..size {
+                    if adjncy[xadj[r]..xadj[r + 1]].windows(2).any(|w| w[0] >= w[1]) {
+                        return None;
+                    }
+                }
+            }
+            if it.next()? != "W" {
+                return None;
+            }
+            let ws = DataSet::parse(&mut it)?;
+            let init = parse_init(&mut it)?;
+            if ws.arity != 1 || init.len() != ws.len {
+                return None;
+            }
+            Op::Fm { max_passes, max_moves, imb, max_bad, adj: Adj { checked, ty, size, xadj, adjncy, ints, bits }, ws, init }
+        }
+        "strerror" => {
+            let c: u64 = it.next()?.parse().ok()?;
+            if c > 8 {
+                return None;
+            }
+            Op::Strerror(c)
+        }
+        _ => return None,
+    };
+    if it.next().is_some() {
+        return None;
+    }
+    Some(op)
+}
+
+// ------------------------------------------------------- the Rust reference
+
+/// Outcome of the Rust API on the logical data of the op.
+#[derive(Clone, Debug, PartialEq)]
+enum Ref {
+    Ok(Vec<usize>),
+    /// FiducciaMattheyses on an input where hash-set order may matter
+    OkTies(Vec<usize>),
+    Err(&'static str, Vec<usize>),
+    HilbertErr(Vec<usize>),
+    Panic(String),
+    Hang,
+    /// the Rust API has no counterpart (dimension not 2/3, type the Rust signature excludes)
+    Na,
+    /// sprs refuses the CSR structure
+    NullAdj,
+}
+
+fn err_name(e: coupe::Error) -> &'static str {
+    match e {
+        coupe::Error::NotFound => "NotFound",
+        coupe::Error::InputLenMismatch { .. } => "InputLenMismatch",
+        coupe::Error::NegativeValues => "NegativeValues",
+        coupe::Error::BiPartitioningOnly => "BiPartitioningOnly",
+        _ => "Other",
+    }
+}
+
+fn points<const D: usize>(flat: &[f64]) -> Vec<SVector<f64, D>> {
+    flat.chunks_exact(D).map(SVector::<f64, D>::from_column_slice).collect()
+}
+
+fn finish<M>(r: Caught<(Result<M, coupe::Error>, Vec<usize>)>) -> Ref {
+    match r {
+        Caught::Ok((Ok(_), p)) => Ref::Ok(p),
+        Caught::Ok((Err(e), p)) => Ref::Err(err_name(e), p),
+        Caught::Panic(m) => Ref::Panic(m),
+        Caught::Hang => Ref::Hang,
+    }
+}
+
+/// `$body` is evaluated with `$w` bound to a `Vec<i32>`, `Vec<i64>` or `Vec<f64>`
+/// holding the logical weight sequence, as the element type says.
+macro_rules! with_weights {
+    ($ws:expr, $w:ident, $body:expr) => {
+        match $ws.ty {
+            Ty::Int => {
+                let $w: Vec<i32> = $ws.logical_i64().into_iter().map(|v| v as i32).collect();
+                $body
+            }
+            Ty::I64 => {
+                let $w: Vec<i64> = $ws.logical_i64();
+                $body
+            }
+            Ty::F64 => {
+                let $w: Vec<f64> = $ws.logical_f64();
+                $body
+            }
+        }
+    };
+}
+
+const REF_TIMEOUT: u64 = 120;
+
+fn reference(op: &Op) -> Ref {
+    match op.clone() {
+        Op::Geo { name, dim, iter, tol, pts, ws, init } => {
+            if dim != 2 && dim != 3 {
+                return Ref::Na;
+            }
+            let flat = pts.logical_f64();
+            let rcb = name == "rcb";
+            macro_rules! go {
+                ($d:literal) => {
+                    with_weights!(ws, w, {
+                        finish(catch_timeout(REF_TIMEOUT, move || {
+                            let mut p = init;
+                            let pv = points::<$d>(&flat);
+                            let r = if rcb {
+                                coupe::Rcb { iter_count: iter, tolerance: tol }
+                                    .partition(&mut p, (pv.par_iter().cloned(), w.par_iter().cloned()))
+                            } else {
+                                coupe::Rib { iter_count: iter, tolerance: tol }
+                                    .partition(&mut p, (&pv[..], w.par_iter().cloned()))
+                            };
+                            (r, p)
+                        }))
+                    })
+                };
+            }
+            if dim == 2 {
+                go!(2)
+            } else {
+                go!(3)
+            }
+        }
+        Op::Hilbert { parts, order, pts, ws, init } => {
+            if ws.ty != Ty::F64 {
+                // HilbertCurve is implemented for `W: AsRef<[f64]>` only
+                return Ref::Na;
+            }
+            let flat = pts.logical_f64();
+            let w = ws.logical_f64();
+            if w.len() != pts.len {
+                // the Rust signature has no length check of its own to compare with
+                // (`partition_indexed` zips); the C prologue must reject
+                return Ref::Err("InputLenMismatch", init);
+            }
+            match catch_timeout(REF_TIMEOUT, move || {
+                let mut p = init;
+                let pv = points::<2>(&flat);
+                let r = coupe::HilbertCurve { part_count: parts, order }.partition(&mut p, (&pv[..], w));
+                (r, p)
+            }) {
+                Caught::Ok((Ok(()), p)) => Ref::Ok(p),
+                Caught::Ok((Err(_), p)) => Ref::HilbertErr(p),
+                Caught::Panic(m) => Ref::Panic(m),
+                Caught::Hang => Ref::Hang,
+            }
+        }
+        Op::Num { name, parts, tol, ws, init } => match name {
+            "greedy" => with_weights!(ws, w, {
+                finish(catch_timeout(REF_TIMEOUT, move || {
+                    let mut p = init;
+                    let r = coupe::Greedy { part_count: parts }.partition(&mut p, w.iter().cloned());
+                    (r, p)
+                }))
+            }),
+            "ckk" => with_weights!(ws, w, {
+                finish(catch_timeout(REF_TIMEOUT, move || {
+                    let mut p = init;
+                    let r = coupe::CompleteKarmarkarKarp { tolerance: tol }.partition(&mut p, w.iter().cloned());
+                    (r, p)
+                }))
+            }),
+            _ => match ws.ty {
+                Ty::Int => {
+                    let w: Vec<i32> = ws.logical_i64().into_iter().map(|v| v as i32).collect();
+                    finish(catch_timeout(REF_TIMEOUT, move || {
+                        let mut p = init;
+                        let r = coupe::KarmarkarKarp { part_count: parts }.partition(&mut p, w.iter().cloned());
+                        (r, p)
+                    }))
+                }
+                Ty::I64 => {
+                    let w = ws.logical_i64();
+                    finish(catch_timeout(REF_TIMEOUT, move || {
+                        let mut p = init;
+                        let r = coupe::KarmarkarKarp { part_count: parts }.partition(&mut p, w.iter().cloned());
+                        (r, p)
+                    }))
+                }
+                Ty::F64 => {
+                    // `coupe::Real` is `repr(transparent)` over f64; the C API views the
+                    // caller's doubles as `Real` without the finiteness assertion of `From`.
+                    let w: Vec<coupe::Real> = ws
+                        .logical_f64()
+                        .into_iter()
+                        .map(|x| unsafe { std::mem::transmute::<f64, coupe::Real>(x) })
+                        .collect();
+                    finish(catch_timeout(REF_TIMEOUT, move || {
+                        let mut p = init;
+                        let r = coupe::KarmarkarKarp { part_count: parts }.partition(&mut p, w.iter().cloned());
+                        (r, p)
+                    }))
+                }
+            },
+        },
+        Op::Fm { max_passes, max_moves, imb, max_bad, adj, ws, init } => {
+            // the structure check `coupe_adjncy_csr` documents (sprs' own, on the typed data)
+            let structure_ok = {
+                let shape = (adj.size, adj.size);
+                match adj.ty {
+                    Ty::F64 => {
+                        let d: Vec<f64> = adj.bits.iter().map(|&b| f64::from_bits(b)).collect();
+                        coupe::sprs::CsMatView::try_new(shape, &adj.xadj[..], &adj.adjncy[..], &d[..]).is_ok()
+                    }
+                    _ => coupe::sprs::CsMatView::try_new(shape, &adj.xadj[..], &adj.adjncy[..], &adj.ints[..]).is_ok(),
+                }
+            };
+            if !structure_ok {
+                return Ref::NullAdj;
+            }
+            if adj.ty != Ty::I64 {
+                // FiducciaMattheyses wants `Topology<i64>`
+                return Ref::Na;
+            }
+            // parameter translation documented in coupe.h: zero `max_passes` /
+            // `max_moves_per_pass` = no limit; NEGATIVE `max_imbalance` = the imbalance
+            // of the input partition.
+            let algo = coupe::FiducciaMattheyses {
+                max_passes: if max_passes == 0 { None } else { Some(max_passes) },
+                max_moves_per_pass: if max_moves == 0 { None } else { Some(max_moves) },
+                max_imbalance: if imb < 0.0 { None } else { Some(imb) },
+                max_bad_move_in_a_row: max_bad,
+            };
+            let tie_free = fm_tie_free(&ws.logical_f64());
+            let r = with_weights!(ws, w, {
+                finish(catch_timeout(REF_TIMEOUT, move || {
+                    let mut p = init;
+                    let mut algo = algo;
+                    let m = coupe::sprs::CsMatView::try_new(
+                        (adj.size, adj.size),
+                        &adj.xadj[..],
+                        &adj.adjncy[..],
+                        &adj.ints[..],
+                    )
+                    .ok()
+                    .unwrap();
+                    let r = algo.partition(&mut p, (m, &w[..]));
+                    (r, p)
+                }))
+            });
+            match r {
+                Ref::Ok(p) if !tie_free => Ref::OkTies(p),
+                r => r,
+            }
+        }
+        Op::Strerror(_) => Ref::Na,
+    }
+}
+
+/// Sufficient condition for FiducciaMattheyses to be independent of the iteration order
+/// of its hash sets: the candidate of a gain bucket is chosen by `min_by` on
+/// `part_weights[target] + weight`; with at least 3 vertices and weights that are distinct
+/// powers of two, or `B + 2^i` with distinct `i` and `B >= 2 * max 2^i`, two vertices never
+/// have the same key (a tie would need two disjoint vertex sets of equal total weight).
+fn fm_tie_free(ws: &[f64]) -> bool {
+    if ws.len() < 3 || ws.iter().any(|w| !(*w >= 1.0 && *w < 9.0e15 && w.fract() == 0.0)) {
+        return false;
+    }
+    let v: Vec<u64> = ws.iter().map(|w| *w as u64).collect();
+    let distinct_pows = |v: &[u64]| {
+        let mut seen = 0u64;
+        for &x in v {
+            if !x.is_power_of_two() || seen & x != 0 {
+                return false;
+            }
+            seen |= x;
+        }
+        true
+    };
+    if distinct_pows(&v) {
+        return true;
+    }
+    let m = *v.iter().min().unwrap();
+    for j in 0..50 {
+        let low = 1u64 << j;
+        if low >= m {
+            break;
+        }
+        let b = m - low;
+        let rest: Vec<u64> = v.iter().map(|x| x - b).collect();
+        if distinct_pows(&rest) && b >= 2 * rest.iter().max().unwrap() {
+            return true;
+        }
+    }
+    false
+}
+
+fn ref_string(r: &Ref) -> String {
+    let ids = |p: &Vec<usize>| if p.is_empty() { "0".to_string() } else { format!("{} {}", p.len(), join(p)) };
+    match r {
+        Ref::Ok(p) => format!("ok {}", ids(p)),
+        Ref::OkTies(_) => "okties".into(),
+        Ref::Err(e, p) => format!("err {} {}", e, ids(p)),
+        Ref::HilbertErr(p) => format!("herr InvalidOrder {}", ids(p)),
+        Ref::Panic(_) => "panic".into(),
+        Ref::Hang => "hang".into(),
+        Ref::Na => "na".into(),
+        Ref::NullAdj => "nulladj".into(),
+    }
+}
+
+// ---------------------------------------------------------- the C library
+
+const FFI_TARGET: &str = "/verif/.build/ffi";
+const CAPI_DIR: &str = "/verif/.build/capi";
+const DRIVER_SRC: &str = "/verif/harness/capi/driver.c";
+
+/// Builds `/repo/ffi` (current working tree) and the C driver. Err = build log tail.
+fn build_capi() -> Result<String, String> {
+    std::fs::create_dir_all(CAPI_DIR).map_err(|e| e.to_string())?;
+    // one builder at a time (several checks may run concurrently)
+    let lock = std::fs::File::create(format!("{}/build.lock", CAPI_DIR)).map_err(|e| e.to_string())?;
+    let _ = lock.lock();
+    let out = Command::new("cargo")
+        .args(["build", "--offline", "-p", "coupe-ffi", "--manifest-path", "/repo/Cargo.toml", "--target-dir", FFI_TARGET])
+        .current_dir("/repo")
+        .env("CARGO_NET_OFFLINE", "true")
+        .env_remove("RUSTFLAGS")
+        .output()
+        .map_err(|e| format!("cannot run cargo: {}", e))?;
+    if !out.status.success() {
+        let log = String::from_utf8_lossy(&out.stderr);
+        let tail: String = log.chars().rev().take(1500).collect::<String>().chars().rev().collect();
+        return Err(format!("cargo build of /repo/ffi failed: {}", tail));
+    }
+    let libdir = format!("{}/debug", FFI_TARGET);
+    if !std::path::Path::new(&format!("{}/libcoupe.so", libdir)).exists() {
+        return Err("libcoupe.so was not produced by the build of /repo/ffi".into());
+    }
+    let exe = format!("{}/driver", CAPI_DIR);
+    let tmp = format!("{}/driver.{}.tmp", CAPI_DIR, std::process::id());
+    let out = Command::new("clang")
+        .args([
+            "-std=c11",
+            "-D_POSIX_C_SOURCE=200809L",
+            "-O1",
+            "-Wall",
+            "-Werror=implicit-function-declaration",
+            "-Werror=incompatible-pointer-types",
+            "-Werror=int-conversion",
+            "-I/repo/ffi/include",
+            DRIVER_SRC,
+            "-o",
+            &tmp,
+            &format!("-L{}", libdir),
+            &format!("-Wl,-rpath,{}", libdir),
+            "-lcoupe",
+        ])
+        .output()
+        .map_err(|e| format!("cannot run clang: {}", e))?;
+    if !out.status.success() {
+        let log = String::from_utf8_lossy(&out.stderr);
+        let tail: String = log.chars().take(1500).collect();
+        let _ = std::fs::remove_file(&tmp);
+        return Err(format!("driver.c does not compile/link against coupe.h + libcoupe: {}", tail));
+    }
+    std::fs::rename(&tmp, &exe).map_err(|e| e.to_string())?;
+    Ok(exe)
+}
+
+struct Capi {
+    child: Child,
+    stdin: ChildStdin,
+    lines: Receiver<Option<String>>,
+}
+
+static BUILD: OnceLock<Result<String, String>> = OnceLock::new();
+static CAPI: Mutex<Option<Capi>> = Mutex::new(None);
+
+fn spawn_capi(exe: &str) -> Result<Capi, String> {
+    let errlog = std::fs::OpenOptions::new()
+        .create(true)
+        .append(true)
+        .open(format!("{}/driver.stderr", CAPI_DIR))
+        .map_err(|e| e.to_string())?;
+    let mut child = Command::new(exe)
+        .stdin(Stdio::piped())
+        .stdout(Stdio::piped())
+        .stderr(Stdio::from(errlog))
+        .env("RUST_BACKTRACE", "0")
+        .spawn()
+        .map_err(|e| format!("cannot start the C driver: {}", e))?;
+    let stdin = child.stdin.take().unwrap();
+    let stdout = child.stdout.take().unwrap();
+    let (tx, rx) = channel();
+    std::thread::spawn(move || {
+        let mut r = BufReader::new(stdout);
+        loop {
+            let mut s = String::new();
+            match r.read_line(&mut s) {
+                Ok(0) | Err(_) => {
+                    let _ = tx.send(None);
+                    break;
+                }
+                Ok(_) => {
+                    if tx.send(Some(s.trim_end().to_string())).is_err() {
+                        break;
+                    }
+                }
+            }
+        }
+    });
+    Ok(Capi { child, stdin, lines: rx })
+}
+
+enum CRes {
+    Line(String),
+    /// the child process died while executing the op (abort, signal)
+    Died(String),
+    Hang,
+    Build(String),
+}
+
+fn call_c(op_line: &str) -> CRes {
+    let exe = match BUILD.get_or_init(build_capi) {
+        Ok(e) => e.clone(),
+        Err(m) => return CRes::Build(m.clone()),
+    };
+    let mut g = CAPI.lock().unwrap_or_else(|e| e.into_inner());
+    if g.is_none() {
+        let _ = std::fs::remove_file(format!("{}/driver.stderr", CAPI_DIR));
+        match spawn_capi(&exe) {
+            Ok(c) => *g = Some(c),
+            Err(m) => return CRes::Build(m),
+        }
+    }
+    let c = g.as_mut().unwrap();
+    let sent = writeln!(c.stdin, "{}", op_line).and_then(|_| c.stdin.flush());
+    if sent.is_ok() {
+        match c.lines.recv_timeout(Duration::from_secs(REF_TIMEOUT)) {
+            Ok(Some(l)) => return CRes::Line(l),
+            Ok(None) => {}
+            Err(_) => {
+                let _ = c.child.kill();
+                let _ = c.child.wait();
+                *g = None;
+                return CRes::Hang;
+            }
+        }
+    }
+    let status = c.child.wait().map(|s| s.to_string()).unwrap_or_else(|e| e.to_string());
+    *g = None; // the next op starts a fresh child
+    let log = std::fs::read_to_string(format!("{}/driver.stderr", CAPI_DIR)).unwrap_or_default();
+    let tail: String = log.chars().rev().take(400).collect::<String>().chars().rev().collect();
+    CRes::Died(format!("{}; stderr tail: {}", status, tail.replace('\n', " / ")))
+}
+
+// ------------------------------------------------------------------ oracle
+
+/// `enum coupe_err` of coupe.h, in the order the header lists the constants.
+const CODES: [&str; 9] =
+    ["OK", "ALLOC", "CRASH", "BAD_DIMENSION", "BAD_TYPE", "BIPART_ONLY", "LEN_MISMATCH", "NOT_FOUND", "NEG_VALUES"];
+
+fn code(name: &str) -> String {
+    format!("{}({})", name, CODES.iter().position(|c| *c == name).unwrap())
+}
+
+/// The code coupe.h documents for a `coupe::Error`.
+fn documented_code(variant: &str) -> &'static str {
+    match variant {
+        "NotFound" => "NOT_FOUND",           // "No partition matching the given constraints have been found."
+        "InputLenMismatch" => "LEN_MISMATCH", // "Data sets passed to an algorithm don't have the same number of elements."
+        "NegativeValues" => "NEG_VALUES",     // "Input contains negative values and such values are not supported."
+        "BiPartitioningOnly" => "BIPART_ONLY", // "fed a partition with more than two parts"
+        _ => "?",
+    }
+}
+
+fn line(codename: &str, p: &[usize]) -> String {
+    if p.is_empty() {
+        format!("{} |", code(codename))
+    } else {
+        format!("{} | {}", code(codename), join(p))
+    }
+}
+
+fn fm_cut(adj: &Adj, p: &[usize]) -> i64 {
+    let mut cut = 0;
+    for r in 0..adj.size {
+        for k in adj.xadj[r]..adj.xadj[r + 1] {
+            let j = adj.adjncy[k];
+            if r < p.len() && j < p.len() && p[r] != p[j] {
+                cut += adj.ints[k];
+            }
+        }
+    }
+    cut / 2
+}
+
+fn parse_c_ids(l: &str) -> Option<Vec<usize>> {
+    let (_, ids) = l.split_once('|')?;
+    ids.split_whitespace().map(|t| t.parse().ok()).collect()
+}
+
+pub fn run_op(ctx: &mut Ctx, op_line: &str) {
+    let Some(op) = parse_op(op_line) else {
+        ctx.record(op_line.to_string(), "bad-op".into(), false);
+        return;
+    };
+    let bare = format_op(&op);
+    let r = reference(&op);
+    let recorded = format!("{} R {}", bare, ref_string(&r));
+    let c = call_c(&bare);
+    let cl = match c {
+        CRes::Line(l) => l,
+        CRes::Died(why) => {
+            let idx = ctx.record(recorded, "child-died".into(), true);
+            ctx.fail(idx, "ffi-abort", format!("the C driver process died during the call ({}) — Rust reference: {}", why, ref_string(&r)));
+            return;
+        }
+        CRes::Hang => {
+            let idx = ctx.record(recorded, "child-hang".into(), true);
+            ctx.fail(idx, "ffi-hang", "the C call did not return within the watchdog delay".into());
+            return;
+        }
+        CRes::Build(m) => {
+            let idx = ctx.record(recorded, "capi-build-failed".into(), true);
+            ctx.fail(idx, "capi-build", m);
+            return;
+        }
+    };
+    ctx.count(&format!("code:{}", cl.split(|ch| ch == ' ' || ch == '(').next().unwrap_or("")));
+    ctx.count(&format!(
+        "ref:{}",
+        match &r {
+            Ref::Panic(m) => panic_sig(m),
+            Ref::Err(e, _) => format!("err {}", e),
+            other => ref_string(other).split(' ').next().unwrap_or("").to_string(),
+        }
+    ));
+
+    // what the property requires of the C result, from the Rust reference and the header text
+    let mut verdict: Option<(&str, String)> = None;
+    let mut out = cl.clone();
+    let (elem_count, init): (usize, &[usize]) = match &op {
+        Op::Geo { init, .. } | Op::Hilbert { init, .. } | Op::Num { init, .. } | Op::Fm { init, .. } => (init.len(), init),
+        Op::Strerror(_) => (0, &[]),
+    };
+    if cl.contains("OVERRUN") {
+        verdict = Some(("ffi-overrun", "the library wrote past the end of the caller's array".into()));
+    } else if cl == "bad-op" {
+        verdict = Some(("driver-bad-op", "the C driver rejects an op the harness accepts".into()));
+    } else if cl.contains("STRERROR_EMPTY") || cl.starts_with("UNKNOWN") {
+        verdict = Some(("ffi-unknown-code", format!("code outside enum coupe_err or without message: {}", cl)));
+    } else {
+        match (&op, &r) {
+            (Op::Strerror(c), _) => {
+                let msg = cl.splitn(3, ' ').nth(2).unwrap_or("");
+                if !cl.starts_with(&format!("strerror {} ", c)) || msg.is_empty() || msg == "<null>" {
+                    verdict = Some(("ffi-strerror", format!("no message for code {}: {:?}", c, cl)));
+                }
+            }
+            (_, Ref::Ok(p)) => {
+                if cl != line("OK", p) {
+                    verdict = Some(("ffi-differs", format!("C: {}  Rust: Ok {:?}", cl, p)));
+                }
+            }
+            (Op::Fm { adj, .. }, Ref::OkTies(p)) => {
+                // hash order may legitimately differ between the two processes: tie-invariant
+                // observables only (code, ids in {0,1}, the cut does not get worse)
+                ctx.count("fm_tie_possible_loose_compare");
+                out = format!("{} ~ties", code("OK"));
+                match parse_c_ids(&cl) {
+                    Some(ids) if cl.starts_with(&code("OK")) && ids.len() == p.len() => {
+                        if ids.iter().any(|&i| i > 1) {
+                            verdict = Some(("ffi-fm-ids", format!("part id above 1: {}", cl)));
+                        } else if fm_cut(adj, &ids) > fm_cut(adj, init) {
+                            verdict = Some(("ffi-fm-cut", format!("cut got worse: {} -> {}", fm_cut(adj, init), fm_cut(adj, &ids))));
+                        }
+                    }
+                    _ => verdict = Some(("ffi-differs", format!("C: {}  Rust: Ok (ties) {:?}", cl, p))),
+                }
+            }
+            (_, Ref::Err(e, p)) => {
+                if cl != line(documented_code(e), p) {
+                    verdict = Some(("ffi-error-code", format!("C: {}  Rust: Err({}) with array {:?}; coupe.h documents {}", cl, e, p, documented_code(e))));
+                }
+            }
+            (_, Ref::HilbertErr(p)) => {
+                // coupe.h names no code for HilbertCurveError::InvalidOrder (and says "order must be
+                // below 64" while the library accepts 0..=32): any error code but OK/CRASH is accepted,
+                // the array must be what the Rust call left
+                ctx.count("hilbert_invalid_order_undocumented_code");
+                let okc = CODES.iter().any(|n| *n != "OK" && *n != "CRASH" && cl == line(n, p));
+                if !okc {
+                    verdict = Some(("ffi-error-code", format!("C: {}  Rust: Err(InvalidOrder), array {:?}", cl, p)));
+                }
+            }
+            (_, Ref::Panic(m)) => {
+                if cl != code("CRASH") {
+                    verdict = Some(("ffi-panic-not-crash", format!("C: {}  Rust API panics: {}", cl, m)));
+                }
+            }
+            (_, Ref::Hang) => verdict = Some(("hang", "the Rust API call hung".into())),
+            (Op::Geo { pts, ws, .. }, Ref::Na) => {
+                // "`dimension` must be 2 or 3"; if the lengths differ as well either code is documented
+                let a = line("BAD_DIMENSION", init);
+                let b = line("LEN_MISMATCH", init);
+                if !(cl == a || (pts.len != ws.len && cl == b)) {
+                    verdict = Some(("ffi-bad-dimension", format!("C: {}  expected {}", cl, a)));
+                }
+            }
+            (Op::Hilbert { pts, ws, .. }, Ref::Na) => {
+                let a = line("BAD_TYPE", init);
+                let b = line("LEN_MISMATCH", init);
+                if !(cl == a || (pts.len != ws.len && cl == b)) {
+                    verdict = Some(("ffi-bad-type", format!("C: {}  expected {}", cl, a)));
+                }
+            }
+            (Op::Fm { .. }, Ref::Na) => {
+                if cl != line("BAD_TYPE", init) {
+                    verdict = Some(("ffi-bad-type", format!("C: {}  expected {}", cl, line("BAD_TYPE", init))));
+                }
+            }
+            (Op::Fm { adj, .. }, Ref::NullAdj) => {
+                if adj.checked && cl != "NULL_ADJNCY" {
+                    verdict = Some(("ffi-adjncy-check", format!("coupe_adjncy_csr accepted a structure sprs refuses: {}", cl)));
+                }
+            }
+            (_, Ref::Na) | (_, Ref::NullAdj) | (_, Ref::OkTies(_)) => {
+                verdict = Some(("harness-internal", format!("unexpected reference {:?}", r)));
+            }
+        }
+        if cl == "NULL_ADJNCY" && r != Ref::NullAdj {
+            verdict = Some(("ffi-adjncy-check", "coupe_adjncy_csr refused a structure sprs accepts".into()));
+        }
+    }
+    let nontrivial = !matches!(op, Op::Strerror(_)) && (elem_count >= 2 || !cl.starts_with("OK("));
+    let idx = ctx.record(recorded, out, nontrivial);
+    if let Some((sig, what)) = verdict {
+        ctx.fail(idx, sig, what);
+    }
+}
+
+// --------------------------------------------------------------- generator
+
+fn bits(x: f64) -> u64 {
+    x.to_bits()
+}
+
+/// Weight data set of logical length `len`. `shape`: 0 small ints, 1 wider, 2 ones.
+fn gen_weights(rng: &mut Rng, repr: Repr, ty: Ty, len: usize, hi: i64) -> DataSet {
+    let k = if repr == Repr::Const { 1 } else { len };
+    let vals: Vec<i64> = (0..k).map(|_| rng.range(1, hi)).collect();
+    mk_weights(repr, ty, len, vals)
+}
+
+fn mk_weights(repr: Repr, ty: Ty, len: usize, vals: Vec<i64>) -> DataSet {
+    if ty == Ty::F64 {
+        // integer-valued doubles: every partial sum is exact, so the order in which rayon
+        // reduces them cannot change a result
+        DataSet { repr, ty, arity: 1, len, ints: vec![], bits: vals.iter().map(|&v| bits(v as f64)).collect() }
+    } else {
+        DataSet { repr, ty, arity: 1, len, ints: vals, bits: vec![] }
+    }
+}
+
+/// Point data set: integer coordinates that are multiples of `len` (so the centroid and the
+/// inertia matrix Rib/Hilbert compute with parallel float sums are exact).
+fn gen_points(rng: &mut Rng, repr: Repr, arity: usize, len: usize, spread: i64) -> DataSet {
+    let k = if repr == Repr::Const { arity } else { len * arity };
+    let m = len.max(1) as i64;
+    let mut vals: Vec<u64> = Vec::with_capacity(k);
+    for _ in 0..k {
+        vals.push(bits((rng.range(-spread, spread) * m) as f64));
+    }
+    DataSet { repr, ty: Ty::F64, arity, len, ints: vec![], bits: vals }
+}
+
+const LEN_SHAPES: [&str; 4] = ["equal", "shorter", "longer", "empty"];
+
+/// (points len, weights len)
+fn lens(rng: &mut Rng, shape: &str, max: usize) -> (usize, usize) {
+    let n = 2 + rng.usize(max - 1);
+    match shape {
+        "equal" => (n, n),
+        "shorter" => (n, rng.usize(n)),
+        "longer" => (n, n + 1 + rng.usize(3)),
+        _ => (0, 0),
+    }
+}
+
+fn tol_pick(rng: &mut Rng) -> f64 {
+    *rng.pick(&[0.0, 0.05, 0.1, 0.5, 1.0])
+}
+
+fn emit(ctx: &mut Ctx, op: Op) {
+    let s = format_op(&op);
+    run_op(ctx, &s);
+}
+
+fn gen_fm(rng: &mut Rng, n: usize, wrepr: Repr, wty: Ty, aty: Ty, family: usize, symmetric: bool) -> Op {
+    // random simple graph, symmetric, sorted rows
+    let mut w = vec![vec![0i64; n]; n];
+    let density = 2 + rng.usize(3);
+    for i in 0..n {
+        for j in (i + 1)..n {
+            if rng.usize(6) < density {
+                let x = rng.range(1, 5);
+                w[i][j] = x;
+                w[j][i] = if symmetric { x } else { x + rng.range(0, 1) * (1 + rng.range(0, 2)) };
+            }
+        }
+    }
+    let mut xadj = vec![0usize];
+    let mut adjncy = vec![];
+    let mut data = vec![];
+    for i in 0..n {
+        for j in 0..n {
+            if w[i][j] != 0 {
+                adjncy.push(j);
+                data.push(w[i][j]);
+            }
+        }
+        xadj.push(adjncy.len());
+    }
+    // vertex weights
+    let vals: Vec<i64> = match family {
+        // tie-free: distinct powers of two, shuffled
+        0 => {
+            let mut v: Vec<i64> = (0..n).map(|i| 1i64 << i).collect();
+            rng.shuffle(&mut v);
+            v
+        }
+        // tie-free and nearly uniform: B + 2^i
+        1 => {
+            let b = 1i64 << (n + 1);
+            let mut v: Vec<i64> = (0..n).map(|i| b + (1i64 << i)).collect();
+            rng.shuffle(&mut v);
+            v
+        }
+        // ties possible: small weights
+        _ => (0..n).map(|_| rng.range(1, 3)).collect(),
+    };
+    let ws = if wrepr == Repr::Const { mk_weights(wrepr, wty, n, vec![rng.range(1, 4)]) } else { mk_weights(wrepr, wty, n, vals) };
+    let init: Vec<usize> = (0..n).map(|_| rng.usize(2)).collect();
+    let imb = *rng.pick(&[-1.0, -0.5, 0.0, 0.05, 0.1, 0.25, 0.5, 1.0, 3.0]);
+    let (ints, fbits) = if aty == Ty::F64 { (vec![], data.iter().map(|&v| bits(v as f64)).collect()) } else { (data, vec![]) };
+    Op::Fm {
+        max_passes: *rng.pick(&[0usize, 1, 2, 5]),
+        max_moves: *rng.pick(&[0usize, 0, 1, 3, 50]),
+        imb,
+        max_bad: *rng.pick(&[0usize, 1, 2, 5]),
+        adj: Adj { checked: rng.chance(3, 4), ty: aty, size: n, xadj, adjncy, ints, bits: fbits },
+        ws,
+        init,
+    }
+}
+
+pub fn generate(ctx: &mut Ctx) {
+    // strerror on every code of the enum
+    for c in 0..9 {
+        emit(ctx, Op::Strerror(c));
+    }
+
+    // ---- 1. the full configuration grid, one (quick) or several (thorough) instances per cell
+    let reps = ctx.budget(1, 3);
+    let maxn = ctx.budget(9, 24);
+    for _ in 0..reps {
+        for name in ["rcb", "rib"] {
+            for &prepr in &REPRS {
+                for &wrepr in &REPRS {
+                    for &wty in &TYS {
+                        for dim in 0..=4usize {
+                            for shape in LEN_SHAPES {
+                                let (pl, wl) = lens(&mut ctx.rng, shape, maxn);
+                                let arity = if dim == 0 { 1 } else { dim };
+                                let pts = gen_points(&mut ctx.rng, prepr, arity, pl, 20);
+                                let ws = gen_weights(&mut ctx.rng, wrepr, wty, wl, 9);
+                                let op = Op::Geo {
+                                    name,
+                                    dim,
+                                    iter: 1 + ctx.rng.usize(3),
+                                    tol: tol_pick(&mut ctx.rng),
+                                    pts,
+                                    ws,
+                                    init: vec![7; pl],
+                                };
+                                ctx.count(&format!("grid:{}:dim{}:{}", name, dim, shape));
+                                emit(ctx, op);
+                            }
+                        }
+                    }
+                }
+            }
+        }
+        for &prepr in &REPRS {
+            for &wrepr in &REPRS {
+                for &wty in &TYS {
+                    for shape in LEN_SHAPES {
+                        let (pl, wl) = lens(&mut ctx.rng, shape, maxn);
+                        let pts = gen_points(&mut ctx.rng, prepr, 2, pl, 20);
+                        let ws = gen_weights(&mut ctx.rng, wrepr, wty, wl, 9);
+                        let op = Op::Hilbert {
+                            parts: 1 + ctx.rng.usize(4),
+                            order: *ctx.rng.pick(&[1u32, 4, 12, 31, 32]),
+                            pts,
+                            ws,
+                            init: vec![7; pl],
+                        };
+                        ctx.count(&format!("grid:hilbert:{}:{}", wty.s(), shape));
+                        emit(ctx, op);
+                    }
+                }
+            }
+        }
+        for name in ["greedy", "kk", "ckk"] {
+            for &wrepr in &REPRS {
+                for &wty in &TYS {
+                    for n in [0usize, 1, 2, 3, 5, 8, 11] {
+                        let hi = if ctx.rng.chance(1, 2) { 9 } else { 1000 };
+                        let ws = gen_weights(&mut ctx.rng, wrepr, wty, n, hi);
+                        let op = Op::Num {
+                            name,
+                            parts: *ctx.rng.pick(&[0usize, 1, 2, 2, 3, 4, 7]),
+                            tol: tol_pick(&mut ctx.rng),
+                            ws,
+                            init: vec![7; n],
+                        };
+                        ctx.count(&format!("grid:{}:{}:{}", name, wrepr.s(), wty.s()));
+                        emit(ctx, op);
+                    }
+                }
+            }
+        }
+        for &wrepr in &REPRS {
+            for &wty in &TYS {
+                for &aty in &TYS {
+                    for family in 0..3 {
+                        let n = 3 + ctx.rng.usize(ctx.budget(7, 10));
+                        let op = gen_fm(&mut ctx.rng, n, wrepr, wty, aty, family, true);
+                        ctx.count(&format!("grid:fm:adj-{}:family{}", aty.s(), family));
+                        emit(ctx, op);
+                    }
+                }
+            }
+        }
+    }
+    ctx.notes.push(format!(
+        "exhaustive configuration grid x{}: rcb/rib {{3 point repr}} x {{3 weight repr}} x {{3 weight types}} x dimension 0..4 x {{equal, shorter, longer, empty}}; hilbert 3x3x3x4; greedy/kk/ckk 3 repr x 3 types x 7 lengths; fm 3 repr x 3 weight types x 3 adjacency types x 3 weight families",
+        reps
+    ));
+
+    // ---- 2. random valid cases, larger
+    let big = ctx.budget(40, 300);
+    for _ in 0..ctx.budget(150, 2500) {
+        let wrepr = *ctx.rng.pick(&REPRS);
+        let prepr = *ctx.rng.pick(&[Repr::Arr, Repr::Arr, Repr::Fn, Repr::Fn, Repr::Const]);
+        let wty = *ctx.rng.pick(&TYS);
+        let n = 2 + ctx.rng.usize(big);
+        let op = match ctx.rng.usize(7) {
+            0 | 1 => {
+                let dim = 2 + ctx.rng.usize(2);
+                Op::Geo {
+                    name: if ctx.rng.chance(1, 2) { "rcb" } else { "rib" },
+                    dim,
+                    iter: ctx.rng.usize(5),
+                    tol: tol_pick(&mut ctx.rng),
+                    pts: gen_points(&mut ctx.rng, prepr, dim, n, 1000),
+                    ws: gen_weights(&mut ctx.rng, wrepr, wty, n, 50),
+                    init: vec![0; n],
+                }
+            }
+            2 => Op::Hilbert {
+                parts: 1 + ctx.rng.usize(6),
+                order: 1 + ctx.rng.usize(32) as u32,
+                pts: gen_points(&mut ctx.rng, prepr, 2, n, 1000),
+                ws: gen_weights(&mut ctx.rng, wrepr, Ty::F64, n, 50),
+                init: vec![0; n],
+            },
+            3 => Op::Num { name: "greedy", parts: ctx.rng.usize(9), tol: 0.0, ws: gen_weights(&mut ctx.rng, wrepr, wty, n, 100_000), init: vec![3; n] },
+            4 => Op::Num { name: "kk", parts: ctx.rng.usize(6), tol: 0.0, ws: gen_weights(&mut ctx.rng, wrepr, wty, n, 100_000), init: vec![3; n] },
+            5 => {
+                let n = 2 + ctx.rng.usize(11);
+                Op::Num { name: "ckk", parts: 0, tol: tol_pick(&mut ctx.rng), ws: gen_weights(&mut ctx.rng, wrepr, wty, n, 60), init: vec![3; n] }
+            }
+            _ => {
+                let n = 3 + ctx.rng.usize(ctx.budget(12, 25));
+                let family = ctx.rng.usize(3);
+                let wty = if family == 1 && n > 14 { Ty::I64 } else { wty };
+                gen_fm(&mut ctx.rng, n, if wrepr == Repr::Const { Repr::Fn } else { wrepr }, wty, Ty::I64, family, true)
+            }
+        };
+        ctx.count("random_valid");
+        emit(ctx, op);
+    }
+
+    // ---- 3. errors the Rust API reports, and the C prologues
+    for _ in 0..ctx.budget(40, 400) {
+        let wrepr = *ctx.rng.pick(&REPRS);
+        let wty = *ctx.rng.pick(&TYS);
+        let op = match ctx.rng.usize(5) {
+            // NotFound: odd total, tolerance 0
+            0 => {
+                let n = 2 + ctx.rng.usize(8);
+                let mut v: Vec<i64> = (0..n).map(|_| 2 * ctx.rng.range(1, 20)).collect();
+                v[0] += 1;
+                let repr = if wrepr == Repr::Const { Repr::Arr } else { wrepr };
+                Op::Num { name: "ckk", parts: 0, tol: 0.0, ws: mk_weights(repr, wty, n, v), init: vec![5; n] }
+            }
+            // InvalidOrder
+            1 => {
+                let n = 1 + ctx.rng.usize(6);
+                let prepr = *ctx.rng.pick(&REPRS);
+                Op::Hilbert {
+                    parts: 2,
+                    order: *ctx.rng.pick(&[33u32, 40, 63, 64, 100, u32::MAX]),
+                    pts: gen_points(&mut ctx.rng, prepr, 2, n, 20),
+                    ws: gen_weights(&mut ctx.rng, wrepr, Ty::F64, n, 9),
+                    init: vec![5; n],
+                }
+            }
+            // BiPartitioningOnly
+            2 => {
+                let n = 3 + ctx.rng.usize(6);
+                let mut op = gen_fm(&mut ctx.rng, n, wrepr, wty, Ty::I64, 0, true);
+                if let Op::Fm { init, .. } = &mut op {
+                    let k = ctx.rng.usize(n);
+                    init[k] = 2 + ctx.rng.usize(3);
+                }
+                op
+            }
+            // adjacency size != number of weights
+            3 => {
+                let n = 3 + ctx.rng.usize(6);
+                let mut op = gen_fm(&mut ctx.rng, n, wrepr, wty, Ty::I64, 0, true);
+                if let Op::Fm { ws, init, .. } = &mut op {
+                    let m = if ctx.rng.chance(1, 3) { 0 } else if ctx.rng.chance(1, 2) { n - 1 - ctx.rng.usize(2) } else { n + 1 + ctx.rng.usize(2) };
+                    *ws = gen_weights(&mut ctx.rng, wrepr, wty, m, 9);
+                    *init = (0..m).map(|_| ctx.rng.usize(2)).collect();
+                }
+                op
+            }
+            // structures `coupe_adjncy_csr` must refuse (unsorted row, index out of range, offsets not monotone)
+            _ => {
+                let n = 3 + ctx.rng.usize(5);
+                let aty = *ctx.rng.pick(&TYS);
+                let mut op = gen_fm(&mut ctx.rng, n, wrepr, wty, aty, 0, true);
+                if let Op::Fm { adj, .. } = &mut op {
+                    adj.checked = true;
+                    if !adj.adjncy.is_empty() {
+                        match ctx.rng.usize(3) {
+                            0 => {
+                                let k = ctx.rng.usize(adj.adjncy.len());
+                                adj.adjncy[k] = n + ctx.rng.usize(3);
+                            }
+                            1 => adj.adjncy.reverse(),
+                            _ => {
+                                if n >= 2 {
+                                    adj.xadj.swap(1, n - 1);
+                                }
+                            }
+                        }
+                    }
+                }
+                op
+            }
+        };
+        ctx.count("error_stream");
+        emit(ctx, op);
+    }
+
+    // ---- 4. inputs that make the library panic (or are suspected to)
+    for _ in 0..ctx.budget(60, 600) {
+        let wrepr = *ctx.rng.pick(&REPRS);
+        let prepr = *ctx.rng.pick(&REPRS);
+        let n = 2 + ctx.rng.usize(8);
+        let nan = f64::NAN;
+        let kind = ctx.rng.usize(10);
+        let op = match kind {
+            // Hilbert with zero parts
+            0 => Op::Hilbert { parts: 0, order: 4, pts: gen_points(&mut ctx.rng, prepr, 2, n, 20), ws: gen_weights(&mut ctx.rng, wrepr, Ty::F64, n, 9), init: vec![1; n] },
+            // NaN / infinite coordinates
+            1 | 2 => {
+                let dim = 2 + ctx.rng.usize(2);
+                let hilbert = ctx.rng.chance(1, 3);
+                let dim = if hilbert { 2 } else { dim };
+                let mut pts = gen_points(&mut ctx.rng, prepr, dim, n, 20);
+                let k = ctx.rng.usize(pts.bits.len());
+                pts.bits[k] = bits(*ctx.rng.pick(&[nan, f64::INFINITY, f64::NEG_INFINITY]));
+                let wty = if hilbert { Ty::F64 } else { *ctx.rng.pick(&TYS) };
+                let ws = gen_weights(&mut ctx.rng, wrepr, wty, n, 9);
+                if hilbert {
+                    Op::Hilbert { parts: 2, order: 6, pts, ws, init: vec![1; n] }
+                } else {
+                    Op::Geo { name: if kind == 1 { "rib" } else { "rcb" }, dim, iter: 2, tol: 0.05, pts, ws, init: vec![1; n] }
+                }
+            }
+            // tolerance that does not convert to the weight type
+            3 => {
+                let wty = *ctx.rng.pick(&TYS);
+                Op::Num {
+                    name: "ckk",
+                    parts: 0,
+                    tol: *ctx.rng.pick(&[nan, 1e30, -1e30, f64::INFINITY]),
+                    ws: gen_weights(&mut ctx.rng, wrepr, wty, n, 50),
+                    init: vec![1; n],
+                }
+            }
+            // `int` overflow in a sum
+            4 | 5 => {
+                let v: Vec<i64> = (0..n).map(|_| i32::MAX as i64 - ctx.rng.range(0, 5)).collect();
+                let ws = mk_weights(if wrepr == Repr::Const { Repr::Arr } else { wrepr }, Ty::Int, n, v);
+                match ctx.rng.usize(4) {
+                    0 => Op::Num { name: "greedy", parts: 2, tol: 0.0, ws, init: vec![1; n] },
+                    1 => Op::Num { name: "kk", parts: 3, tol: 0.0, ws, init: vec![1; n] },
+                    2 => Op::Num { name: "ckk", parts: 0, tol: 0.1, ws, init: vec![1; n] },
+                    _ => Op::Geo { name: "rcb", dim: 2, iter: 1, tol: 0.1, pts: gen_points(&mut ctx.rng, prepr, 2, n, 20), ws, init: vec![1; n] },
+                }
+            }
+            // NaN weights
+            6 => {
+                let mut ws = gen_weights(&mut ctx.rng, if wrepr == Repr::Const { Repr::Fn } else { wrepr }, Ty::F64, n, 9);
+                let k = ctx.rng.usize(ws.bits.len());
+                ws.bits[k] = bits(nan);
+                match ctx.rng.usize(3) {
+                    0 => Op::Num { name: "kk", parts: 2 + ctx.rng.usize(2), tol: 0.0, ws, init: vec![1; n] },
+                    1 => Op::Num { name: "ckk", parts: 0, tol: 0.1, ws, init: vec![1; n] },
+                    _ => Op::Num { name: "greedy", parts: 2, tol: 0.0, ws, init: vec![1; n] },
+                }
+            }
+            // FiducciaMattheyses on an asymmetric matrix (its internal cut bookkeeping assertion)
+            7 => {
+                let wty = *ctx.rng.pick(&TYS);
+                let family = ctx.rng.usize(2);
+                gen_fm(&mut ctx.rng, 3 + n, if wrepr == Repr::Const { Repr::Arr } else { wrepr }, wty, Ty::I64, family, false)
+            }
+            // FiducciaMattheyses: bound that does not convert to the weight type
+            8 => {
+                let wty = *ctx.rng.pick(&[Ty::Int, Ty::I64]);
+                let mut op = gen_fm(&mut ctx.rng, 3 + n, if wrepr == Repr::Const { Repr::Arr } else { wrepr }, wty, Ty::I64, 0, true);
+                if let Op::Fm { imb, .. } = &mut op {
+                    *imb = *ctx.rng.pick(&[1e30, nan, f64::INFINITY]);
+                }
+                op
+            }
+            // negative weights
+            _ => {
+                let v: Vec<i64> = (0..n).map(|_| ctx.rng.range(-9, 9)).collect();
+                let wty = *ctx.rng.pick(&TYS);
+                let ws = mk_weights(if wrepr == Repr::Const { Repr::Arr } else { wrepr }, wty, n, v);
+                match ctx.rng.usize(3) {
+                    0 => Op::Num { name: "kk", parts: 2 + ctx.rng.usize(2), tol: 0.0, ws, init: vec![1; n] },
+                    1 => Op::Num { name: "ckk", parts: 0, tol: 0.1, ws, init: vec![1; n] },
+                    _ => Op::Geo { name: "rcb", dim: 2, iter: 2, tol: 0.1, pts: gen_points(&mut ctx.rng, prepr, 2, n, 20), ws, init: vec![1; n] },
+                }
+            }
+        };
+        ctx.count(&format!("panic_stream:kind{}", kind));
+        emit(ctx, op);
+    }
+    ctx.notes.push("FiducciaMattheyses: ids are compared exactly only on inputs whose vertex weights rule out ties (distinct powers of two, or B+2^i); on the others (hash-set iteration order is per-process random) only the code, ids in {0,1} and cut <= initial cut are compared — counted as fm_tie_possible_loose_compare".into());
+    ctx.notes.push("f64 weights are integer-valued and point coordinates are integer multiples of the point count, so that rayon's reduction order cannot change a float sum (the comparison is between two processes)".into());
 }
